@@ -227,6 +227,92 @@ theorem resolve_unhandled_keeps_all_partial (tree : List (Str × Str)) (paths : 
   refine List.Perm.trans (List.perm_append_comm) ?_
   simpa using this
 
+/-! ## algebra of selections (corollaries of `select_partition`) -/
+
+/-- `resolve` with an empty path list selects nothing: every conflict is kept, in order -/
+theorem select_no_paths (tree : List (Str × Str)) (recurse : Bool) (cs : List Conflict) :
+    selectConflicts tree [] recurse cs = (cs, []) := by
+  have hp := select_partition tree [] recurse cs
+  simp only at hp
+  have hs : ∀ c, isSelected [] (treeIds tree []) recurse c = false := by
+    intro c
+    unfold isSelected isInsideAny treeIds
+    cases c.conflictPath <;> cases c.fileId <;> cases c.conflictFileId <;> simp
+  apply Prod.ext
+  · rw [hp.1]; simp [hs]
+  · rw [hp.2.1]; simp [hs]
+
+/-- selecting again, with the same paths, among the conflicts that were kept
+selects nothing more: `resolve PATHS` twice removes what `resolve PATHS` once removes -/
+theorem select_idempotent (tree : List (Str × Str)) (paths : List Str) (recurse : Bool) (cs : List Conflict) :
+    selectConflicts tree paths recurse (selectConflicts tree paths recurse cs).1
+      = ((selectConflicts tree paths recurse cs).1, []) := by
+  have hp := select_partition tree paths recurse cs
+  have hq := select_partition tree paths recurse (selectConflicts tree paths recurse cs).1
+  simp only at hp hq
+  apply Prod.ext
+  · rw [hq.1, hp.1, List.filter_filter]; simp
+  · rw [hq.2.1, hp.1, List.filter_filter]
+    simp only [List.filter_eq_nil_iff]
+    intro c _
+    cases isSelected paths (treeIds tree paths) recurse c <;> simp
+
+/-- the ids looked up for a larger path list include those of a smaller one -/
+theorem treeIds_mono (tree : List (Str × Str)) (paths paths' : List Str) (h : ∀ p ∈ paths, p ∈ paths') :
+    ∀ i ∈ treeIds tree paths, i ∈ treeIds tree paths' := by
+  intro i hi
+  unfold treeIds at *
+  simp only [List.mem_filterMap] at *
+  obtain ⟨p, hp, he⟩ := hi
+  exact ⟨p, h p hp, he⟩
+
+/-- selection is monotone in the path list: naming more paths never un-selects a conflict -/
+theorem isSelected_mono (tree : List (Str × Str)) (paths paths' : List Str) (recurse : Bool) (c : Conflict)
+    (h : ∀ p ∈ paths, p ∈ paths') (hs : isSelected paths (treeIds tree paths) recurse c = true) :
+    isSelected paths' (treeIds tree paths') recurse c = true := by
+  have hi := treeIds_mono tree paths paths' h
+  unfold isSelected isInsideAny at *
+  cases hcp : c.conflictPath <;> cases hf : c.fileId <;> cases hcf : c.conflictFileId <;>
+    simp only [hcp, hf, hcf, Bool.or_false, Bool.or_eq_true, Bool.and_eq_true, List.contains_iff_mem,
+      List.any_eq_true] at hs ⊢ <;> grind
+
+theorem select_mono (tree : List (Str × Str)) (paths paths' : List Str) (recurse : Bool) (cs : List Conflict)
+    (h : ∀ p ∈ paths, p ∈ paths') :
+    (∀ c ∈ (selectConflicts tree paths recurse cs).2, c ∈ (selectConflicts tree paths' recurse cs).2)
+      ∧ ∀ c ∈ (selectConflicts tree paths' recurse cs).1, c ∈ (selectConflicts tree paths recurse cs).1 := by
+  have hp := select_partition tree paths recurse cs
+  have hq := select_partition tree paths' recurse cs
+  simp only at hp hq
+  rw [hp.1, hp.2.1, hq.1, hq.2.1]
+  constructor
+  · intro c hc
+    rw [List.mem_filter] at hc ⊢
+    exact ⟨hc.1, isSelected_mono tree paths paths' recurse c h hc.2⟩
+  · intro c hc
+    rw [List.mem_filter] at hc ⊢
+    refine ⟨hc.1, ?_⟩
+    cases hsel : isSelected paths (treeIds tree paths) recurse c
+    · rfl
+    · have := isSelected_mono tree paths paths' recurse c h hsel
+      simp [this] at hc
+
+/-- recursion only adds: whatever is selected without `recurse` is selected with it -/
+theorem select_recurse_superset (tree : List (Str × Str)) (paths : List Str) (cs : List Conflict) :
+    ∀ c ∈ (selectConflicts tree paths false cs).2, c ∈ (selectConflicts tree paths true cs).2 := by
+  have hp := select_partition tree paths false cs
+  have hq := select_partition tree paths true cs
+  simp only at hp hq
+  rw [hp.2.1, hq.2.1]
+  intro c hc
+  rw [List.mem_filter] at hc ⊢
+  refine ⟨hc.1, ?_⟩
+  have hs := hc.2
+  unfold isSelected isInsideAny at *
+  cases hcp : c.conflictPath <;> cases hf : c.fileId <;> cases hcf : c.conflictFileId <;>
+    simp only [hcp, hf, hcf, Bool.or_false, Bool.or_eq_true, List.contains_iff_mem,
+      List.any_eq_true, Bool.false_and, Bool.true_and] at hs ⊢ <;> grind
+
+
 -- non-vacuity: a list with a multi-line path, a tab, `": "`, non-ASCII and all optional attributes
 example :
     let cs : List Conflict :=
@@ -249,5 +335,13 @@ example : isInside "a".toList "a/b".toList = true ∧ isInside "a".toList "ab".t
 example : (selectConflicts [("a".toList, "i".toList)] ["a".toList] false
     [⟨.text, "a/b".toList, none, none, none, none⟩, ⟨.text, "x".toList, some "i".toList, none, none, none⟩,
      ⟨.text, "a".toList, none, none, none, none⟩]).1 = [⟨.text, "a/b".toList, none, none, none, none⟩] := by decide
+
+-- non-vacuity of the selection algebra: a selection that grows with the path list and with `recurse`
+example :
+    let tree : List (Str × Str) := [("a".toList, "i".toList), ("b".toList, "j".toList)]
+    let cs : List Conflict := [⟨.text, "a/x".toList, none, none, none, none⟩, ⟨.text, "q".toList, some "j".toList, none, none, none⟩,
+      ⟨.text, "z".toList, none, none, none, none⟩]
+    (selectConflicts tree ["a".toList] false cs).2 = [] ∧ (selectConflicts tree ["a".toList] true cs).2.length = 1
+      ∧ (selectConflicts tree ["a".toList, "b".toList] true cs).2.length = 2 := by decide
 
 end BreezyVerif.C20
